@@ -7,6 +7,7 @@ import (
 	"math/rand/v2"
 	"os"
 	"runtime/debug"
+	"strings"
 	"time"
 
 	"github.com/scionproto/scion/pkg/slayers/path"
@@ -42,6 +43,8 @@ type c19Wit struct {
 	Content string   `json:"path_hex,omitempty"`
 	Got     string   `json:"got,omitempty"`
 	Want    string   `json:"want,omitempty"`
+	Object  string   `json:"object,omitempty"`     // failed-operation monitor: which object
+	Ops     string   `json:"operations,omitempty"` // ... and the calls made on it, in order
 }
 
 func segPattern(seg [3]uint8) string {
@@ -411,6 +414,9 @@ func c19DeepShape(a *acc, rng *rand.Rand, seg [3]uint8, cleanReserved bool, allS
 		}
 		a.class("stepping/" + shapeCls)
 
+		// ---- failed operations are part of the histories ----
+		c19FailedOpsShape(a, ru, seg, content, ref0, mask)
+
 		// ---- every pointer state ----
 		rev0 := ref0.refReverse() // pointer-independent part of the reversed path
 		reversedRef := func(inf, hf uint8) *refScionPath {
@@ -598,6 +604,427 @@ func c19DeepShape(a *acc, rng *rand.Rand, seg [3]uint8, cleanReserved bool, allS
 	}
 }
 
+// ---- failed operations as part of the histories ----
+//
+// The statement's invariants are invariants of the object, not of the calls
+// that succeed: a path that was walked to its last hop and asked to advance
+// once more (the call fails, as it must) is still the same path at its last
+// hop. The failed-operation monitor takes a fresh scion.Base, scion.Raw and
+// scion.Decoded and the three long-lived ones of the reuse stream, all holding
+// the shape's path, walks each to the last hop, calls IncPath again one to three
+// times (every call must fail) and, where the type has them, other calls that
+// must fail (Get/Set*Field with the first index out of range, SerializeTo into
+// a buffer one byte too short). After every failed call the object must report
+// what it reported before it, and what it reports is judged against the
+// reference: CurrHF is the last hop, CurrINF the segment containing it,
+// IsXover/IsFirstHopAfterXover/IsLastHop/CurrINFMatchesCurrHF, dimensions and
+// Len(), the current info/hop field, SerializeTo reproduces the path with these
+// pointers, Raw.ToDecoded and Decoded.ToRaw agree with it, Reverse gives the
+// reference reversal and a second Reverse the state before. For part of the
+// shapes the history goes on: the reversed path is walked to its end, asked to
+// advance again, and reversed, which must give the original path at hop 0.
+// Decoding a rejected header into an object is still not looked at.
+
+type c19Subject struct {
+	name string
+	b    *scion.Base
+	raw  *scion.Raw
+	dec  *scion.Decoded
+}
+
+func (s *c19Subject) inc() error {
+	switch {
+	case s.raw != nil:
+		return s.raw.IncPath()
+	case s.dec != nil:
+		return s.dec.IncPath()
+	}
+	return s.b.IncPath()
+}
+
+// c19Obs is what an object reports about itself.
+type c19Obs struct {
+	meta              scion.MetaHdr
+	numINF, numHops   int
+	length            int
+	xover, firstAfter bool
+	match, last       bool   // Raw only
+	held              []byte // Raw only: the bytes the object holds (PathMeta written back)
+	ser               []byte // Raw, Decoded: SerializeTo into exactly Len() bytes
+	serErr            bool
+}
+
+func (s *c19Subject) observe(o *c19Obs) {
+	b := s.b
+	o.meta, o.numINF, o.numHops, o.length = b.PathMeta, b.NumINF, b.NumHops, b.Len()
+	o.xover, o.firstAfter = b.IsXover(), b.IsFirstHopAfterXover()
+	if s.raw != nil {
+		o.match, o.last = s.raw.CurrINFMatchesCurrHF(), s.raw.IsLastHop()
+	}
+	if s.raw == nil && s.dec == nil {
+		return
+	}
+	n := max(o.length, 0)
+	if cap(o.ser) < n {
+		o.ser = make([]byte, n, 2*n)
+	}
+	o.ser = o.ser[:n:n]
+	clear(o.ser)
+	var err error
+	if s.raw != nil {
+		err = s.raw.SerializeTo(o.ser)
+		// taken after SerializeTo, which writes PathMeta (with zero RSV bits) into the
+		// bytes the path holds: the observation itself must not count as a change
+		o.held = append(o.held[:0], s.raw.Raw...)
+	} else {
+		err = s.dec.SerializeTo(o.ser)
+	}
+	o.serErr = err != nil
+}
+
+// diff describes the first thing o reports differently from p, "" if nothing.
+func (o *c19Obs) diff(p *c19Obs) string {
+	switch {
+	case o.meta != p.meta:
+		return fmt.Sprintf("PathMeta %+v, before %+v", o.meta, p.meta)
+	case o.numINF != p.numINF || o.numHops != p.numHops || o.length != p.length:
+		return fmt.Sprintf("NumINF/NumHops/Len() %d/%d/%d, before %d/%d/%d", o.numINF, o.numHops, o.length, p.numINF, p.numHops, p.length)
+	case o.xover != p.xover || o.firstAfter != p.firstAfter:
+		return fmt.Sprintf("IsXover/IsFirstHopAfterXover %v/%v, before %v/%v", o.xover, o.firstAfter, p.xover, p.firstAfter)
+	case o.match != p.match || o.last != p.last:
+		return fmt.Sprintf("CurrINFMatchesCurrHF/IsLastHop %v/%v, before %v/%v", o.match, o.last, p.match, p.last)
+	case string(o.held) != string(p.held):
+		return fmt.Sprintf("the bytes the Raw path holds: %x.., before %x..", o.held[:min(4, len(o.held))], p.held[:min(4, len(p.held))])
+	case o.serErr != p.serErr:
+		return fmt.Sprintf("SerializeTo into Len() bytes fails: %v, before: %v", o.serErr, p.serErr)
+	case string(o.ser) != string(p.ser):
+		return fmt.Sprintf("SerializeTo writes %x.., before %x..", o.ser[:min(4, len(o.ser))], p.ser[:min(4, len(p.ser))])
+	}
+	return ""
+}
+
+// c19FailedCtx is one subject's history under the failed-operation monitor.
+type c19FailedCtx struct {
+	a       *acc
+	s       *c19Subject
+	content []byte // the path as first decoded (pointers 0,0)
+	mask    []byte
+	ops     []string // calls made so far
+	verdict bool     // something was reported
+	before  c19Obs
+	now     c19Obs
+}
+
+func (c *c19FailedCtx) report(prefix, what, msg string, want *refScionPath) {
+	c.verdict = true
+	m := c.s.b.PathMeta
+	c.a.violation(prefix+what, fmt.Sprintf(
+		"%s, SegLen=%v, after [%s]: %s", c.s.name, want.Meta.Seg, strings.Join(c.ops, " "), msg),
+		c19Wit{Seg: refParseMeta(c.content).Seg, Inf: m.CurrINF, Hf: m.CurrHF, Rsv: want.Meta.Rsv, Content: hexs(c.content),
+			Object: c.s.name, Ops: strings.Join(c.ops, " "), Got: msg,
+			Want: fmt.Sprintf("CurrINF=%d CurrHF=%d", want.Meta.Inf, want.Meta.Hf)})
+}
+
+// judge compares what the object reports now with the reference path want
+// (pointers included) and, if before is set, with what it reported before the
+// failed call. op is the key prefix: it names the failed call and the object.
+func (c *c19FailedCtx) judge(op string, want *refScionPath, wantBytes []byte, cmpBefore bool) {
+	s, o := c.s, &c.now
+	s.observe(o)
+	c.a.evals++
+	seg, ninf, nhops := want.Meta.Seg, len(want.Infos), len(want.Hops)
+	if o.meta.SegLen != seg || o.numINF != ninf || o.numHops != nhops || o.length != refPathLen(ninf, nhops) {
+		c.report(op, "dims", fmt.Sprintf("SegLen %v NumINF %d NumHops %d Len() %d; the path has SegLen %v, %d segments, %d hops, %d bytes",
+			o.meta.SegLen, o.numINF, o.numHops, o.length, seg, ninf, nhops, refPathLen(ninf, nhops)), want)
+		return
+	}
+	hf := int(o.meta.CurrHF)
+	if hf != int(want.Meta.Hf) {
+		c.report(op, "curr-hf", fmt.Sprintf("CurrHF is %d, the current hop was %d", hf, want.Meta.Hf), want)
+	}
+	consistent := false
+	if hf < nhops {
+		idx, first, last := refSegOf(seg, hf)
+		consistent = int(o.meta.CurrINF) == idx
+		if !consistent {
+			c.report(op, "curr-inf", fmt.Sprintf("CurrINF is %d, hop %d lies in segment %d (hops %d..%d)", o.meta.CurrINF, hf, idx, first, last), want)
+		}
+		if s.raw != nil && (o.match != consistent || o.last != (hf == nhops-1)) {
+			c.report(op, "predicates", fmt.Sprintf("CurrINFMatchesCurrHF()=%v IsLastHop()=%v with CurrINF=%d CurrHF=%d, segment %d, %d hops",
+				o.match, o.last, o.meta.CurrINF, hf, idx, nhops), want)
+		}
+		if consistent {
+			wantX := hf == last && hf != nhops-1
+			wantF := idx > 0 && hf == first
+			if o.xover != wantX || o.firstAfter != wantF {
+				c.report(op, "predicates", fmt.Sprintf("IsXover()=%v IsFirstHopAfterXover()=%v at hop %d (segment %d spans %d..%d of %d hops); expected %v/%v",
+					o.xover, o.firstAfter, hf, idx, first, last, nhops, wantX, wantF), want)
+			}
+		}
+	}
+	if cmpBefore {
+		if d := o.diff(&c.before); d != "" {
+			c.report(op, "state-changed", "the failed call changed what the object reports: "+d, want)
+		}
+	}
+	switch {
+	case s.raw != nil:
+		if o.serErr || !eqMasked(o.ser, wantBytes, c.mask) {
+			c.report(op, "serialize", fmt.Sprintf("SerializeTo (failed: %v) writes meta %x, the path at its current hop is %x",
+				o.serErr, o.ser[:min(4, len(o.ser))], wantBytes[:4]), want)
+		}
+		if d2, err := s.raw.ToDecoded(); err != nil {
+			c.report(op, "raw-decoded", "Raw.ToDecoded: "+err.Error(), want)
+		} else if d := diffDecoded(d2, want); d != "" {
+			c.report(op, "raw-decoded", "Raw.ToDecoded: "+d, want)
+		}
+		if consistent && hf == int(want.Meta.Hf) {
+			ci, e1 := s.raw.GetCurrentInfoField()
+			ch, e2 := s.raw.GetCurrentHopField()
+			if e1 != nil || e2 != nil || !eqInfo(ci, want.Infos[want.Meta.Inf]) || !eqHop(ch, want.Hops[want.Meta.Hf]) {
+				c.report(op, "current-fields", fmt.Sprintf("GetCurrentInfoField/GetCurrentHopField = %+v,%v / %+v,%v; the path holds %+v / %+v there",
+					ci, e1, ch, e2, want.Infos[want.Meta.Inf], want.Hops[want.Meta.Hf]), want)
+			}
+		} else if _, e1 := s.raw.GetCurrentInfoField(); e1 != nil {
+			c.report(op, "current-fields", "GetCurrentInfoField: "+e1.Error(), want)
+		}
+	case s.dec != nil:
+		if o.serErr || !eqMasked(o.ser, wantBytes, c.mask) {
+			c.report(op, "serialize", fmt.Sprintf("SerializeTo (failed: %v) writes meta %x, the path at its current hop is %x",
+				o.serErr, o.ser[:min(4, len(o.ser))], wantBytes[:4]), want)
+		}
+		if d := diffDecoded(s.dec, want); d != "" {
+			c.report(op, "decoded-fields", "Decoded: "+d, want)
+		}
+		if r2, err := s.dec.ToRaw(); err != nil {
+			c.report(op, "raw-decoded", "Decoded.ToRaw: "+err.Error(), want)
+		} else if !eqMasked(r2.Raw, wantBytes, c.mask) || r2.PathMeta.CurrINF != want.Meta.Inf || r2.PathMeta.CurrHF != want.Meta.Hf {
+			c.report(op, "raw-decoded", fmt.Sprintf("Decoded.ToRaw: meta %+v bytes %x, the path at its current hop is %x", r2.PathMeta, r2.Raw[:4], wantBytes[:4]), want)
+		}
+	}
+	c.a.event("failed_ops_state_judged")
+}
+
+// failing calls other than IncPath; each returns whether the call failed
+// (a call that unexpectedly succeeds is not judged here).
+func (s *c19Subject) failGet() bool {
+	_, e1 := s.raw.GetInfoField(s.raw.NumINF)
+	_, e2 := s.raw.GetHopField(s.raw.NumHops)
+	return e1 != nil && e2 != nil
+}
+
+func (s *c19Subject) failSet() bool {
+	e1 := s.raw.SetInfoField(path.InfoField{SegID: 0xFFFF, Timestamp: 0xFFFFFFFF, ConsDir: true, Peer: true}, s.raw.NumINF)
+	e2 := s.raw.SetHopField(path.HopField{ExpTime: 0xFF, ConsIngress: 0xFFFF, ConsEgress: 0xFFFF, Mac: [6]byte{1, 2, 3, 4, 5, 6}}, s.raw.NumHops)
+	return e1 != nil && e2 != nil
+}
+
+func (s *c19Subject) failSerializeShort(scratch *[]byte) bool {
+	n := s.b.Len() - 1
+	if n < 0 {
+		return false
+	}
+	b := zeroed(scratch, n)
+	if s.raw != nil {
+		return s.raw.SerializeTo(b) != nil
+	}
+	return s.dec.SerializeTo(b) != nil
+}
+
+// c19FailedOps plays the history described above on one subject that holds the
+// path ref0 (any pointer position on the way from hop 0). sel chooses how many
+// failing IncPath calls and which other failing calls are made.
+func c19FailedOps(a *acc, s *c19Subject, content []byte, ref0 *refScionPath, mask []byte, sel uint8) {
+	c := &c19FailedCtx{a: a, s: s, content: content, mask: mask}
+	ninf, nhops := len(ref0.Infos), len(ref0.Hops)
+	cls := "failed-ops/" + s.name + "/"
+	after := func(op string) string { return "C19:after-failed-" + op + ":" + s.name + ":" }
+	var scratch []byte
+	want := &refScionPath{Meta: ref0.Meta, Infos: ref0.Infos, Hops: ref0.Hops}
+	legs := 1
+	if (s.raw != nil || s.dec != nil) && sel&0x40 != 0 {
+		legs = 2
+	}
+	for leg := 0; leg < legs; leg++ {
+		// ---- to the last hop ----
+		steps := 0
+		for int(s.b.PathMeta.CurrHF) < nhops-1 && steps < 64 {
+			if err := s.inc(); err != nil {
+				c.ops = append(c.ops, "IncPath:error")
+				c.report("C19:walked-to-end:"+s.name+":", "incpath", fmt.Sprintf("IncPath at hop %d of %d fails: %v", s.b.PathMeta.CurrHF, nhops, err), want)
+				return
+			}
+			steps++
+		}
+		c.ops = append(c.ops, fmt.Sprintf("IncPath:ok*%d", steps))
+		idx, _, _ := refSegOf(want.Meta.Seg, nhops-1)
+		want.Meta.Inf, want.Meta.Hf = uint8(idx), uint8(nhops-1)
+		wantBytes := want.bytes()
+		// the state the failing calls start from (the reuse monitor has already asked
+		// its objects to advance once: on a one-hop path that call was a failing one)
+		if start := "C19:walked-to-end:" + s.name + ":"; leg == 0 && nhops == 1 && strings.HasPrefix(s.name, "reused-") {
+			c.ops = append(c.ops, "(IncPath:failed before)")
+			c.judge(after("incpath"), want, wantBytes, false)
+		} else {
+			c.judge(start, want, wantBytes, false)
+		}
+		if c.verdict {
+			return
+		}
+		c.before, c.now = c.now, c.before // (the slices are swapped along: no aliasing)
+		// ---- IncPath again: must fail, must leave the object as it was ----
+		nInc := 1 + int(sel%3)
+		for k := 0; k < nInc; k++ {
+			if err := s.inc(); err == nil {
+				c.ops = append(c.ops, "IncPath:ok")
+				a.violation("C19:incpath/end", fmt.Sprintf("%s: IncPath at the last hop %d of SegLen=%v succeeds (call %d at the end)", s.name, nhops-1, want.Meta.Seg, k+1),
+					c19Wit{Seg: want.Meta.Seg, Inf: want.Meta.Inf, Hf: want.Meta.Hf, Content: hexs(content), Object: s.name, Ops: strings.Join(c.ops, " ")})
+				return
+			}
+			c.ops = append(c.ops, "IncPath:failed")
+			a.event("failed_incpath")
+			c.judge(after("incpath"), want, wantBytes, true)
+			if c.verdict {
+				return // attributed to this call; what later calls would report follows from it
+			}
+		}
+		a.class(fmt.Sprintf("%sninf=%d/incpath-at-end", cls, ninf))
+		a.class(fmt.Sprintf("%sincpath-at-end-x%d", cls, nInc))
+		if nhops == 1 {
+			a.class(cls + "single-hop-path")
+		}
+		if leg == 1 {
+			a.class(cls + "incpath-at-end-of-reversed-path")
+		}
+		// ---- other calls that must fail ----
+		other, failed := "", false
+		switch {
+		case s.raw != nil && (sel>>2)%4 == 1:
+			other, failed = "get-field", s.failGet()
+		case s.raw != nil && (sel>>2)%4 == 2:
+			other, failed = "set-field", s.failSet()
+		case s.raw != nil && (sel>>2)%4 == 3, s.dec != nil && (sel>>2)%2 == 1:
+			other, failed = "serialize-short", s.failSerializeShort(&scratch)
+		}
+		if other != "" {
+			if !failed {
+				c.ops = append(c.ops, other+":ok")
+				a.class(cls + other + "/succeeded-unjudged")
+			} else {
+				c.ops = append(c.ops, other+":failed")
+				a.event("failed_" + other)
+				a.class(cls + other)
+				c.judge(after(other), want, wantBytes, true)
+				if c.verdict {
+					return
+				}
+				if sel&0x20 != 0 { // and a retry of the advance after it
+					if err := s.inc(); err != nil {
+						c.ops = append(c.ops, "IncPath:failed")
+						a.event("failed_incpath")
+						a.class(cls + "incpath-after-" + other)
+						c.judge(after("incpath"), want, wantBytes, true)
+						if c.verdict {
+							return
+						}
+					}
+				}
+			}
+		}
+		if s.raw == nil && s.dec == nil {
+			break
+		}
+		// ---- Reverse: the reference reversal; again: the state before ----
+		reverse := func() bool {
+			var err error
+			if s.raw != nil {
+				_, err = s.raw.Reverse()
+			} else {
+				_, err = s.dec.Reverse()
+			}
+			if err != nil {
+				c.ops = append(c.ops, "Reverse:error")
+				c.report(after("incpath"), "reverse-error", "Reverse: "+err.Error(), want)
+				return false
+			}
+			c.ops = append(c.ops, "Reverse")
+			return true
+		}
+		rev := want.refReverse()
+		if !reverse() {
+			return
+		}
+		c.judge(after("incpath")+"reverse-once/", rev, rev.bytes(), false)
+		if c.verdict {
+			return
+		}
+		if leg == legs-1 {
+			if !reverse() {
+				return
+			}
+			c.judge(after("incpath")+"reverse-twice/", want, wantBytes, false)
+			a.event("failed_ops_reverse_twice")
+			break
+		}
+		want = rev // the reversed path, at its hop 0: walked to its end in the next leg
+	}
+	if legs == 2 && !c.verdict {
+		// the path was reversed, walked to the end, asked to advance, reversed twice
+		// (state before), and is reversed once more: the original path at hop 0
+		var err error
+		if s.raw != nil {
+			_, err = s.raw.Reverse()
+		} else {
+			_, err = s.dec.Reverse()
+		}
+		c.ops = append(c.ops, "Reverse")
+		if err != nil {
+			c.report(after("incpath"), "reverse-error", "Reverse: "+err.Error(), want)
+			return
+		}
+		orig := &refScionPath{Meta: ref0.Meta, Infos: ref0.Infos, Hops: ref0.Hops}
+		orig.Meta.Inf, orig.Meta.Hf = 0, 0
+		c.judge(after("incpath")+"reversed-walked-failed-reversed/", orig, orig.bytes(), false)
+		a.class(cls + "reversed-walked-failed-reversed")
+	}
+}
+
+// c19FailedOpsShape runs the failed-operation monitor for one shape: on fresh
+// objects decoded from content and on the long-lived objects of the reuse
+// stream (which c19ReuseFeed has just handed the same bytes).
+func c19FailedOpsShape(a *acc, ru *reuseStream, seg [3]uint8, content []byte, ref0 *refScionPath, mask []byte) {
+	_, ninf, nhops := refShape(seg)
+	plen := refPathLen(ninf, nhops)
+	sel := content[plen-1] // a PRNG byte (MAC of the last hop field)
+	var fb scion.Base
+	var fr scion.Raw
+	var fd scion.Decoded
+	if fb.DecodeFromBytes(content) == nil {
+		c19FailedOps(a, &c19Subject{name: "base", b: &fb}, content, ref0, mask, sel)
+	}
+	if fr.DecodeFromBytes(append([]byte(nil), content...)) == nil {
+		c19FailedOps(a, &c19Subject{name: "raw", b: &fr.Base, raw: &fr}, content, ref0, mask, sel>>1|sel<<7)
+	}
+	if fd.DecodeFromBytes(content) == nil {
+		c19FailedOps(a, &c19Subject{name: "decoded", b: &fd.Base, dec: &fd}, content, ref0, mask, sel>>2|sel<<6)
+	}
+	if ru == nil {
+		return
+	}
+	// the long-lived objects: only if they hold this path (that they do after
+	// decoding it is the reuse monitor's business)
+	holds := func(b *scion.Base) bool { return b.PathMeta.SegLen == seg && b.NumINF == ninf && b.NumHops == nhops }
+	if holds(&ru.base) {
+		c19FailedOps(a, &c19Subject{name: "reused-base", b: &ru.base}, content, ref0, mask, sel>>3|sel<<5)
+	}
+	if holds(&ru.raw.Base) && len(ru.raw.Raw) == plen {
+		c19FailedOps(a, &c19Subject{name: "reused-raw", b: &ru.raw.Base, raw: &ru.raw}, content, ref0, mask, sel>>4|sel<<4)
+	}
+	if holds(&ru.dec.Base) && len(ru.dec.InfoFields) == ninf && len(ru.dec.HopFields) == nhops {
+		c19FailedOps(a, &c19Subject{name: "reused-decoded", b: &ru.dec.Base, dec: &ru.dec}, content, ref0, mask, sel>>5|sel<<3)
+	}
+}
+
 // c19Packet wraps path bytes into a SCION header with 4-byte host addresses.
 func c19Packet(region []byte) []byte {
 	a := refAddrHdr{DstIA: 0x0001ff0000000110, SrcIA: 0x0002ff0000000220, Dst: []byte{10, 0, 0, 1}, Src: []byte{10, 0, 0, 2}}
@@ -720,13 +1147,20 @@ func checkC19(r *mon.Run) {
 		"slayers.SCION layers (with/without RecyclePaths, the path wrapped into a packet) per stream of 32 shapes decode every shape's bytes, " +
 		"with a PRNG-chosen interlude before each (header without segments, gap shape, more than 64 hops, truncated path, one-hop path); " +
 		"each is compared with a fresh object on the same bytes: decision, fields, Len(), SerializeTo into exactly Len() bytes, IncPath. " +
-		"reuse/<object>/<what the object decoded before>"
+		"reuse/<object>/<what the object decoded before>. Failed-operation monitor: per accepted shape a fresh scion.Base, Raw and Decoded and the " +
+		"three long-lived ones of the reuse stream are walked to the last hop and asked to advance again 1-3 times (must fail), Raw/Decoded also " +
+		"get other calls that must fail (Get/Set*Field one past the last index, SerializeTo into Len()-1 bytes, a further IncPath after those); after " +
+		"every failed call the object must report what it reported before and what the reference says about the path at its last hop (CurrINF = " +
+		"segment of CurrHF, predicates, dimensions, current fields, SerializeTo bytes, ToDecoded/ToRaw agreement), Reverse must give the reference " +
+		"reversal and Reverse again the state before; for a PRNG-chosen half the reversed path is walked to its end, asked to advance, and reversed " +
+		"back to the original at hop 0; failed-ops/<object>/<calls>"
 	r.Assumptions = []string{
 		"the all-zero SegLen header (and only it) is recorded but not judged: the statement does not fix it",
 		"IsXover/IsFirstHopAfterXover/single Reverse are judged only where CurrINF designates the segment containing an in-range CurrHF; other pointer states are judged for CurrINFMatchesCurrHF, hop position predicates, IncPath and Reverse-twice only",
 		"reserved bits are compared under the mask derived from scion-header.rst (serialization may clear them)",
 		"hop/info field contents are sampled (one or more random fillings per shape), not enumerated",
 		"reuse monitor: whether the all-zero SegLen header is accepted is still not judged, that a used object answers it like a fresh one is; the state of an object after a rejected decode is not looked at",
+		"failed-operation monitor: failing calls are made only on a path standing at its last hop with CurrINF designating that hop's segment (IncPath with an out-of-range CurrHF clamps it, which the statement does not speak about); a Get/Set*Field or short SerializeTo that unexpectedly succeeds is recorded, not judged; whether the bytes a scion.Raw holds lag behind its PathMeta is not judged, only that a failed call does not change them",
 	}
 
 	// The rejecting decodes allocate an error with a stack trace each; with 16
@@ -823,7 +1257,23 @@ func checkC19(r *mon.Run) {
 	r.Sample(map[string]any{"phase": "A", "headers": 1 << 26, "accepted": r.Events("decode_accepted"), "rejected": r.Events("decode_rejected")})
 	r.Require(1<<26-256, 40, "decode_accepted", "decode_rejected", "rsv_toggled_accepted", "rsv_toggled_rejected",
 		"incpath_step", "boundary_predicates", "reverse_decoded", "reverse_raw", "representation_checked",
-		"reuse_step", "reuse_equal", "reuse_both_rejected")
+		"reuse_step", "reuse_equal", "reuse_both_rejected",
+		"failed_incpath", "failed_get-field", "failed_set-field", "failed_serialize-short", "failed_ops_state_judged", "failed_ops_reverse_twice")
+	for _, o := range []string{"base", "raw", "decoded", "reused-base", "reused-raw", "reused-decoded"} {
+		for n := 1; n <= 3; n++ {
+			r.RequireClasses(fmt.Sprintf("failed-ops/%s/ninf=%d/incpath-at-end", o, n), fmt.Sprintf("failed-ops/%s/incpath-at-end-x%d", o, n))
+		}
+		if all { // the one shape with a single hop is certainly visited only when all shapes are
+			r.RequireClasses("failed-ops/" + o + "/single-hop-path")
+		}
+		if !strings.HasSuffix(o, "base") {
+			r.RequireClasses("failed-ops/"+o+"/serialize-short", "failed-ops/"+o+"/incpath-after-serialize-short",
+				"failed-ops/"+o+"/incpath-at-end-of-reversed-path", "failed-ops/"+o+"/reversed-walked-failed-reversed")
+		}
+		if strings.HasSuffix(o, "raw") {
+			r.RequireClasses("failed-ops/"+o+"/get-field", "failed-ops/"+o+"/set-field")
+		}
+	}
 	r.RequireClasses("decode/pattern=nnn/hops=64/accepted", "decode/pattern=nnn/hops=65/rejected",
 		"decode/pattern=nzn/hops=2-3/rejected", "decode/pattern=znn/hops=2-3/rejected", "decode/pattern=zzn/hops=1/rejected",
 		"decode/pattern=nzz/hops=17-63/accepted", "decode/pattern=nnz/hops=64/accepted",
